@@ -14,7 +14,7 @@ desc = {d["ID"]: d for d in json.loads(subprocess.check_output([BIN, "describe"]
 # id -> the deciding method, in a few words
 technique = {
  "C01": "loop-progress (stuck-cycle) analysis over SSA cycles, must-advance path rule for inline parsers, countdown-underflow contradiction rule, reachable-panic inventory, registry/type-assertion agreement, window-guard coverage of constant-offset lookahead reads, compared-before-use rule for computed slice ends",
- "C02": "constant evaluation and sibling cross-check of the numeric-character-reference decoders (base and length guard of every strconv.Parse call on a scanned digit run) + evaluation of the backslash-escapable byte set for all 256 values, typestate of the label normaliser, column-origin rule for indentation helpers in block parsers, Open-initialises-state rule for per-block context keys",
+ "C02": "constant evaluation and sibling cross-check of the numeric-character-reference decoders (base and length guard of every strconv.Parse call on a scanned digit run) + evaluation of the backslash-escapable byte set for all 256 values, typestate of the label normaliser, column-origin rule for indentation helpers in block parsers, Open-initialises-state rule for per-block context keys, all-byte-values evaluation of the title delimiter pairs at sibling sites",
  "C16": "template extraction from the sink model's attribute contexts (id/href piece sequences compared across render functions) + dominance rules for the numbering discipline + stale-cursor (iterate-and-remove) rule, no-loop rule for the numbering store, insertion-point rule of the list sort",
  "C03": "taint-to-sink dataflow over SSA with an HTML lexer-state dataflow over the constant writes (attribute contexts), dominance by the Unsafe flag, constant-vocabulary extraction, escape-table evaluation",
  "C04": "dominance/guard analysis of every href/src sink found by the lexer-state dataflow + same-value (SSA identity) rule between tested and written URL + constant evaluation of the predicate tables",
@@ -22,7 +22,7 @@ technique = {
  "C06": "effect analysis over SSA + refined VTA call graph (stores into shared/node memory, nondeterminism sources, Convert shape)",
  "C07": "effect analysis: shared-memory write inventory + sync.Once discipline + init-only registries + thread-safe foreign receivers + C12",
  "C08": "symbolic linear-form rule on every reader.Advance argument in BlockParser.Open/Continue (never the whole peeked line) + who-may-call rule for AdvanceLine, blank-line guard rule for trigger-less block parsers, path rule for the block-quote marker and its one optional space",
- "C09": "call-graph phase separation (AddReference only in the block phase, lookups only in the inline phase, block phase dominates inline phase) + first-definition-wins dominance rule, Open-initialises-state dominance rule for per-block context keys",
+ "C09": "call-graph phase separation (AddReference only in the block phase, lookups only in the inline phase, block phase dominates inline phase) + first-definition-wins dominance rule, Open-initialises-state dominance rule for per-block context keys, close-all-at-end-of-input rule for the block-phase driver, title-delimiter sibling agreement",
  "C10": "option-flag use-shape analysis over SSA (each load of XHTML/HardWraps/Unsafe only as a branch between constant writes that differ as the statement allows) + option propagation/table agreement, path rule: every soft-break path consults HardWraps",
  "C11": "shape rule for GFM composition + path rule: only the width predicate may suppress the soft line break, constant evaluation of extension trigger sets against the statement's characters, required-literal analysis of the table delimiter patterns",
  "C12": "ownership (freshness) dataflow over SSA for every []byte write site + copy-on-write typestate + unsafe inventory",
